@@ -210,7 +210,7 @@ pub fn run(ctx: &RunCtx) -> i32 {
         rule: "(a) for every method of the S3 trait (table generated from s3_trait.rs) inputs with members minimal / all present / random subsets are encoded by aws-sdk-s3 through s3s_aws::Proxy under the configuration matrix {path-style, virtual-hosted} x {no host parser, single domain, multi domain} x {no auth, auth}; the recording backend must log exactly that method once. (b) raw requests over 10 HTTP methods x {root, bucket, object} x random subsets of the model's literal query flags plus unknown ones x {x-amz-copy-source, x-amz-request-route} that denote no model operation (decided conservatively from the smithy http traits) must be answered with an S3 error and no backend call. A cell is (operation, style used, configuration, member pattern) resp. (method, path kind, flag class).".into(),
         assumptions: vec![
             "requests the SDK refuses to build client-side are counted, never judged".into(),
-            "PostObject (not in the smithy model) is exercised by C10; WriteGetObjectResponse's fixed path and host prefix are recorded separately".into(),
+            "PostObject is not in the smithy model: its dispatch (POST + multipart/form-data on a bucket -> put_object) is driven with reference-encoded signed forms; what the form carries is C10's subject. WriteGetObjectResponse's fixed path and host prefix are recorded separately".into(),
         ],
         min_held: 500,
         min_cells: 200,
@@ -218,7 +218,7 @@ pub fn run(ctx: &RunCtx) -> i32 {
     };
     let ops: Vec<&'static str> = OPS.iter().map(|o| o.name).collect();
     let cfgs = LoopCfg::matrix();
-    let reps = ctx.tier.sz(5, 1500);
+    let reps = ctx.tier.sz(30, 1500);
     let n_jobs = ops.len() as u64;
     let mut total = par_run(ctx.workers, n_jobs, |j, r| {
         let rt = new_runtime();
@@ -246,12 +246,47 @@ pub fn run(ctx: &RunCtx) -> i32 {
     });
     total.note(format!("S3 trait has {} operations; model operations without a trait method: {:?}", ops.len(), MODEL_ONLY_OPS));
     let routes = model_routes();
-    let n_noop = ctx.tier.sz(200_000, 40_000_000);
+    let n_noop = ctx.tier.sz(2_000_000, 40_000_000);
     let per = 2000u64;
     let rep = par_run(ctx.workers, n_noop.div_ceil(per), |j, r| {
         let rt = new_runtime();
         let mut g = Rng::new(derive_seed(ctx.seed, "C01/noop", j));
         noop_requests(&routes, r, &rt, &mut g, per);
+    });
+    total.merge(rep);
+    // (c) the one operation that is not in the model: a browser-style POST form on a bucket denotes an object write
+    // (ops/mod.rs special case).  Valid signed forms, with and without the CRLF preamble, with part headers in either
+    // order, fields after the file, in one frame or several - exactly one put_object, nothing else.
+    let secrets = crate::monitor::c05::secrets(ctx.seed);
+    let n_forms = ctx.tier.sz(6000, 200_000);
+    let per_f = 50u64;
+    let rep = par_run(ctx.workers, n_forms.div_ceil(per_f), |j, r| {
+        let rt = new_runtime();
+        let mut g = Rng::new(derive_seed(ctx.seed, "C01/post-form", j));
+        for i in 0..per_f {
+            let (form, cclass, _) = crate::monitor::c10::gen_form_pub(&mut g, &secrets);
+            let len = form.encode().len();
+            let framing = match i % 3 {
+                0 => None,
+                1 => Some(Framing::default()),
+                _ => Some(Framing { cuts: vec![(len / 3).max(1), (len / 3).max(1)], ..Default::default() }),
+            };
+            let req = form.request(framing);
+            let cfg = crate::monitor::c05::auth_cfg(&secrets, HostCfg::None);
+            let (out, events) = run_once(&rt, &cfg, None, &req);
+            let b = backend_events(&events);
+            let styles = if form.field_styles.iter().any(|s| *s != 0) { "mixed-part-headers" } else { "plain-part-headers" };
+            let pre = if form.preamble.is_empty() { "no-preamble" } else { "crlf-preamble" };
+            if b.len() == 1 && b[0].op == "PutObject" {
+                r.held(format!("post-form/{styles}/{pre}/{cclass}"));
+            } else {
+                let kind = if b.is_empty() { "not-dispatched".to_owned() } else { format!("diverted-to/{}", b[0].op) };
+                r.violated(
+                    format!("C01/PostObject/{kind}/{}", out.response().and_then(RawResponse::error_code).unwrap_or_default()),
+                    json!({"kind": "post-form", "form": form, "outcome": out.to_json(), "backend": b.iter().map(|x| x.op).collect::<Vec<_>>(), "part_headers": styles, "preamble": pre}),
+                );
+            }
+        }
     });
     total.merge(rep);
     finish(ctx, &meta, &total)
@@ -274,6 +309,18 @@ pub fn replay(v: &Value) -> i32 {
                 r.violated("C01/no-operation/replayed", json!({"outcome": out.to_json()}));
             } else {
                 r.held("replay");
+            }
+        }
+        "post-form" => {
+            let form: crate::monitor::c10::Form = serde_json::from_value(w["form"].clone()).unwrap_or_else(|e| harness_error(&format!("bad form: {e}")));
+            // (the policy of the recorded form may have expired meanwhile; s3s does not look at the expiration - see C10)
+            let secrets = crate::monitor::c05::secrets(v["seed"].as_u64().unwrap_or(1));
+            let (out, events) = run_once(&rt, &crate::monitor::c05::auth_cfg(&secrets, HostCfg::None), None, &form.request(None));
+            let b = backend_events(&events);
+            if b.len() == 1 && b[0].op == "PutObject" {
+                r.held("replay");
+            } else {
+                r.violated("C01/PostObject/replayed", json!({"outcome": out.to_json()}));
             }
         }
         k => harness_error(&format!("C01: cannot replay witness kind {k:?}")),
